@@ -449,5 +449,6 @@ func init() {
 		}
 		c01Generated(r)
 		c01Accepted(r)
+		c01MapOrder(r)
 	})
 }
